@@ -259,21 +259,20 @@ def d4_geometry(chk, repo):
     chk.ob(ROT + "._create_interpolation_funcs::zero-outside", ok, "C18.D4",
            f"returns {w.show(t)[:140]}; expected RegularGridInterpolator(..., fill_value=0, bounds_error=False)", w.f, r_)
     okg = False
-    for st in w.stmts():
-        if isinstance(st, ast.For):
-            i = each(w, w.term(st.iter, at=st))
-            for s2 in st.body:
-                if isinstance(s2, ast.Expr) and isinstance(s2.value, ast.Call) and isinstance(s2.value.func, ast.Attribute) and \
-                        s2.value.func.attr == "append":
-                    tt = w.term(s2.value.args[0], at=s2)
-                    O = w.spec("self._orig_field")
-                    want = w.spec("np.array([lo[i] - c[i] * 1e-09, *np.linspace(lo[i] + c[i] / 2, hi[i] - c[i] / 2, O.mesh.n[i]), "
-                                  "hi[i] + c[i] * 1e-09]) - O.mesh.region.center[i]",
-                                  env={"i": i, "O": O, "lo": w.spec("O.mesh.region.pmin", env={"O": O}),
-                                       "hi": w.spec("O.mesh.region.pmax", env={"O": O}), "c": w.spec("O.mesh.cell", env={"O": O})})
-                    okg = w.eq(tt, want)
-    lp3 = [st for st in w.stmts() if isinstance(st, ast.For)]
-    chk.ob(ROT + "._create_interpolation_funcs::three-axes", len(lp3) == 1 and w.eq(w.term(lp3[0].iter, at=lp3[0]), w.spec("range(3)")),
+    ok3 = False
+    O = w.spec("self._orig_field")
+    want_grid = w.spec("[np.array([lo[i] - c[i] * 1e-09, *np.linspace(lo[i] + c[i] / 2, hi[i] - c[i] / 2, O.mesh.n[i]), "
+                       "hi[i] + c[i] * 1e-09]) - O.mesh.region.center[i] for i in range(3)]",
+                       env={"O": O, "lo": w.spec("O.mesh.region.pmin", env={"O": O}),
+                            "hi": w.spec("O.mesh.region.pmax", env={"O": O}), "c": w.spec("O.mesh.cell", env={"O": O})})
+    for st_, nm_, t_ in simple_assigns(w):
+        h_ = w.ctx.head_of(t_)
+        if h_ and h_[0] == "seqcomp":
+            gens = w.ctx.args_of(t_)[1:]
+            if len(gens) == 1 and w.eq(w.ctx.args_of(gens[0])[0], w.spec("range(3)")):
+                ok3 = True
+                okg = w.eq(t_, want_grid)
+    chk.ob(ROT + "._create_interpolation_funcs::three-axes", ok3,
            "C18.D4", "one grid per spatial axis: range(3)", w.f)
     nn_ = FV(repo, ROT + "._calculate_new_n", param_types=PT)
     rr, tn = _single_return(nn_)
